@@ -379,6 +379,15 @@ def run(ctx):
         c = gen_dist_case(rng)
         ctx.count("search:dist")
         report(ctx, R.dist_oracle(c), c)
+    for _ in range(ctx.n(12, 200)):
+        W = rng.randint(2, 4)
+        c = {"oracle": "loader-dist", "N": rng.randint(W, 40), "W": W, "seed": rng.randrange(1 << 30)}
+        ctx.count("search:loader-dist")
+        report(ctx, R.loader_dist_oracle(c), c)
+    for _ in range(ctx.n(12, 200)):
+        c = {"oracle": "live-iterators", "N": rng.randint(5, 60), "q": rng.choice([0.1, 0.2, 0.25, 0.05]), "seed": rng.randrange(1 << 30), "before": rng.randint(0, 6), "peek": rng.randint(1, 25)}
+        ctx.count("search:live-iterators")
+        report(ctx, R.live_iterators_oracle(c), c)
     for _ in range(ctx.n(80, 1500)):
         s = gen_item(rng)
         ctx.count("search:collate")
@@ -392,7 +401,11 @@ def run(ctx):
 
 def replay(ctx, rp):
     c = rp.get("failing_input") or rp.get("case")
-    if "item" in c:
+    if c.get("oracle") == "loader-dist":
+        res = R.loader_dist_oracle(c)
+    elif c.get("oracle") == "live-iterators":
+        res = R.live_iterators_oracle(c)
+    elif "item" in c:
         res = R.collate_oracle(c)
     elif "W" in c:
         res = R.dist_oracle(c)
